@@ -800,7 +800,7 @@ def transform_stage(ctx, binary, stats, hist, notes, only=None):
         hist["ut:scale=" + meta.get("scale", "?")] = hist.get("ut:scale=" + meta.get("scale", "?"), 0) + 1
         try:
             probs, o, Bs = check_ut_case(line, meta, h, stats, notes)
-        except (IndexError, ValueError) as e:
+        except (IndexError, ValueError, ArithmeticError) as e:
             probs, o, Bs = [("prop", "ut-output-malformed", "unscented_transform (%s overload): output not of the expected form (%s): %s" % (meta["mode"], type(e).__name__, h[:80]))], None, None
         first.append((probs, o, Bs))
         if Bs is not None or (o is not None and not meta["valid"]):
@@ -1352,7 +1352,7 @@ def circ_stage_impl(ctx, binary, stats, hist, notes, only=None):
         else:
             try:
                 o = parse_utc_out(h, meta)
-            except (IndexError, ValueError) as e:
+            except (IndexError, ValueError, ArithmeticError) as e:
                 o = None
                 probs.append(("prop", "ut-output-malformed", "unscented_transform with circular components: output not of the expected form (%s): %s" % (type(e).__name__, h[:80])))
             n = li.dof
